@@ -29,9 +29,9 @@ Definition mat := list vec.
 (* Switches: set one to `true` when the corresponding repair is in /repo (proposed_fix_C16_F*.diff).  The Impl then
    models the repaired mechanism, the guard of that class becomes vacuous, the generator of harness/c16.py (which
    reads these three lines) starts producing the class, and the `_refuted` lemma of the class becomes vacuous. *)
-Definition fixed_F2 : bool := false.   (* post-synaptic variable registered under its own name *)
-Definition fixed_F3 : bool := false.   (* scalar weight + coupling template -> full weight matrix *)
-Definition fixed_F8 : bool := false.   (* one ring buffer per delayed Connectivity *)
+Definition fixed_F2 : bool := true.   (* post-synaptic variable registered under its own name *)
+Definition fixed_F3 : bool := true.   (* scalar weight + coupling template -> full weight matrix *)
+Definition fixed_F8 : bool := true.   (* one ring buffer per delayed Connectivity *)
 
 Definition mkq (num : Z) (den : positive) : Qc := Q2Qc (num # den).
 Definition Qcltb (a b : Qc) : bool := negb (Qle_bool b a).
